@@ -5,11 +5,11 @@ P=$1; NAME=$2; NEEDS=$3; WT=${4:-/tmp/wt_$P}; OUT=/tmp/${P}_out
 set -e
 cd $WT
 git checkout -q -- ad_afqmc
-/venv/bin/python demo_$P.py > /tmp/demo_orig.log 2>&1 && ORIG=0 || ORIG=$?
+/venv/bin/python demo_$P.py > /tmp/demo_orig_$P.log 2>&1 && ORIG=0 || ORIG=$?
 git apply $OUT/patch.diff
-/venv/bin/python demo_$P.py > /tmp/demo_mut.log 2>&1 && MUT=0 || MUT=$?
-/venv/bin/python -m pytest -q -p no:cacheprovider --timeout=900 > /tmp/tests_mut.log 2>&1 || true
-TESTS=$(tail -1 /tmp/tests_mut.log)
+/venv/bin/python demo_$P.py > /tmp/demo_mut_$P.log 2>&1 && MUT=0 || MUT=$?
+/venv/bin/python -m pytest -q -p no:cacheprovider --timeout=900 > /tmp/tests_mut_$P.log 2>&1 || true
+TESTS=$(tail -1 /tmp/tests_mut_$P.log)
 echo "demo original exit=$ORIG ; demo with change exit=$MUT ; tests with change: $TESTS"
 if [ "$ORIG" = 0 ] && [ "$MUT" != 0 ] && echo "$TESTS" | grep -q "41 passed"; then
   D=/verif/seeded/$NAME; mkdir -p $D
@@ -24,5 +24,5 @@ json.dump(dict(property=p,breaks=p,needs_to_manifest=needs,
 PY
   echo "CONFIRMED -> $D"
 else
-  echo "NOT CONFIRMED"; tail -5 /tmp/demo_orig.log /tmp/demo_mut.log
+  echo "NOT CONFIRMED"; tail -5 /tmp/demo_orig_$P.log /tmp/demo_mut_$P.log
 fi
